@@ -88,6 +88,15 @@ def norm(t):
             base, a, b = CMP_FLIP[base], b, a       # a > b  ==  b < a  (also for NaN: both false)
         if base in COMMUTATIVE and repr(b) < repr(a):
             a, b = b, a                              # IEEE addition / multiplication are commutative as well
+        if not fl and a[0] == 'int' and b[0] == 'int':
+            # constant folding (after the equalities of a path pair have been substituted)
+            x, y = a[1], b[1]
+            if base in ('Lt', 'Le', 'Eq', 'Ne'):
+                return ('bool', {'Lt': x < y, 'Le': x <= y, 'Eq': x == y, 'Ne': x != y}[base])
+        if not fl and base in ('Eq', 'Le') and a == b and a[0] not in ('app', 'float'):
+            return ('bool', True)
+        if not fl and base in ('Ne', 'Lt') and a == b and a[0] not in ('app', 'float'):
+            return ('bool', False)
         return ('op', base + ('.f' if fl else ''), a, b)
     if h == 'un' and len(t) == 3 and t[1] == 'Not':
         x = norm(t[2])
@@ -98,7 +107,26 @@ def norm(t):
         if x[0] == 'bool':
             return ('bool', not x[1])
         return ('un', 'Not', x)
+    if h == 'app' and len(t) == 4 and t[1] in CONV_APPS and len(t[2]) == 1 and isinstance(t[3], tuple):
+        # the four spellings of one sample conversion (no Sample impl overrides the provided methods: C03 sample.no-override;
+        # the blanket ToSample impl forwards to FromSample: C01 dispatch.generic) -- one canonical application
+        tys = t[3]
+        kind = CONV_APPS[t[1]]
+        src = dst = None
+        if kind == 'to' and len(tys) >= 2:
+            src, dst = tys[0], tys[1]
+        elif kind == 'from' and len(tys) >= 2:
+            src, dst = tys[1], tys[0]
+        elif kind in ('Signed', 'Float') and len(tys) >= 1:
+            src, dst = tys[0], '<%s as dasp_sample::Sample>::%s' % (tys[0], kind)
+        if src is not None:
+            return ('app', 'sample-conversion', (norm(t[2][0]),), (norm(src), norm(dst)))
     return tuple(norm(x) for x in t)
+
+
+CONV_APPS = {'dasp_sample::Sample::to_sample': 'to', 'dasp_sample::conv::ToSample::to_sample_': 'to',
+             'dasp_sample::Sample::from_sample': 'from', 'dasp_sample::conv::FromSample::from_sample_': 'from',
+             'dasp_sample::Sample::to_signed_sample': 'Signed', 'dasp_sample::Sample::to_float_sample': 'Float'}
 
 
 class Namer:
@@ -136,9 +164,10 @@ class Namer:
         return tuple(self.rn(x) for x in t)
 
 
-def const_interval(conds, term):
-    """[lo, hi] for `term` from comparisons with integer constants among normalised literals"""
-    lo, hi = -float('inf'), float('inf')
+def const_interval(conds, term, lo0=-float('inf')):
+    """[lo, hi] for `term` from comparisons with integer constants among normalised literals (lo0: a known lower bound,
+    0 for a term of unsigned type)"""
+    lo, hi = lo0, float('inf')
     holes = set()
     for c, v in conds:
         if c == term:
@@ -185,7 +214,7 @@ def assert_redundant(ev, conds):
         return False
     op, a, b = c[1], c[2], c[3]
     if op == 'Sub' and b[0] == 'int' and len(b) > 2 and b[2] in UNSIGNED:
-        lo, hi = const_interval(conds, a)
+        lo, hi = const_interval(conds, a, 0)
         return lo >= b[1]
     if op == 'Sub' and a[0] != 'int':
         # a - b with b <= a established
@@ -237,6 +266,20 @@ def expand_closures(facts, p, t, table, depth, evmap=None):
         return t
     is_clo = t[0] == 'agg' and len(t) == 3 and isinstance(t[1], tuple) and t[1] and t[1][0] == 'closure'
     is_fn = t[0] == 'fnitem' and len(t) == 4
+    if is_fn and depth < 8:
+        b0 = facts.by_hash.get(t[2])
+        if b0 is None or b0.get('trait_default'):
+            # a trait method used as a value (`zip_map(other, Sample::add_amp)`): it denotes the *call* of that method, which
+            # an impl may override -- the same term a closure `|a, b| a.add_amp(b)` yields
+            key = repr(t)
+            if key in table['ids']:
+                return ('#clo', table['ids'][key])
+            cid = len(table['ids'])
+            table['ids'][key] = cid
+            n = b0['argc'] if b0 is not None else 2
+            ret = norm(('app', t[1], tuple(('carg', i) for i in range(1, n + 1)), tuple(t[3])))
+            table['paths'].append([{'conds': [], 'events': [], 'writes': [], 'ret': tl(ret), 'end': 'return'}])
+            return ('#clo', cid)
     if (is_clo or is_fn) and depth < 8:
         h = t[1][2] if is_clo else t[2]
         body = facts.by_hash.get(h)
